@@ -5,6 +5,9 @@ from ..helpers.resource_matcher import ResourceMatcher
 
 def deduper(rows: ResourceWrapper):
     pk = rows.res.descriptor['schema'].get('primaryKey', [])
+    if isinstance(pk, str):
+        # Table Schema allows a single field name
+        pk = [pk]
     if len(pk) == 0:
         yield from rows
     else:
